@@ -2219,8 +2219,11 @@ def convert_squared_difference(op, arch, nng):
         mul_op.set_ifm_ofm_shapes()
         DebugDatabase.add_optimised(op, mul_op)
 
+        # The difference and its square have the shape of the result: they are cloned from the operand that is not broadcast
+        full_ifm = ifm if ifm.elements() >= ifm2.elements() else ifm2
+
         # Calculate the raw diff
-        raw_diff = ifm.clone(suffix="_raw_diff", set_unique=True)
+        raw_diff = full_ifm.clone(suffix="_raw_diff", set_unique=True)
         raw_diff.dtype = DataType.int32
         raw_diff.quantization = None
         sub_op = Operation(Op.Sub, op.name + "_raw_diff")
@@ -2231,7 +2234,7 @@ def convert_squared_difference(op, arch, nng):
         DebugDatabase.add_optimised(op, sub_op)
 
         # Calculate the squared diff
-        squared_raw = ifm.clone(suffix="_squared_raw", set_unique=True)
+        squared_raw = full_ifm.clone(suffix="_squared_raw", set_unique=True)
         squared_raw.dtype = DataType.int32
         squared_raw.quantization = None
         mul_op = Operation(Op.Mul, op.name + "_squared_raw")
